@@ -1,17 +1,22 @@
 /-
   ZapModel.Writer: BYTE-LEVEL models of the zapx v16 WRITERS (the counterpart of
   `ZapModel.Layout`, the independent decoder), plus list-level twins of Layout's
-  array-based decoders (same checks, same order, `Bytes` instead of `ByteArray` +
-  cursor) in which the round-trip theorems are first proved
-  (ZapProofs/WriterLemmas*.lean, ZapProofs/Props/C09Bytes.lean).
+  array-based decoders (same reads, same checks, same order; `Bytes` instead of
+  `ByteArray` + cursor; Layout's 10-byte / 64-bit uvarint rule: `uv64`).
 
   Writers modelled (Go source, read-only /repo):
     A  new.go `writeStoredFields` + build.go `persistStoredFieldValues`
          -> `encodeStoredDoc`
     B  section_inverted_text_index.go `writeDicts` (per-term loop) through
        intcoder.go `chunkedIntCoder` (`Codec.intCoderEncode`)
-         -> `encodeFreqNorm`, `encodeLocs`;  merge.go `writePostings` + intcoder.go
-       `writeAt` -> `writePostings`
+         -> `encodeFreqNorm`, `encodeLocs`;  merge.go `writePostings` (general encoding) +
+       intcoder.go `writeAt` -> `writePostings`, `locStream?`
+
+  Theorems (ZapProofs/WriterLemmas*.lean, ZapProofs/Props/C09Bytes.lean):
+    - the twins invert the writers (`decodeEntriesL`, `decodeStoredDocL`);
+    - for EVERY `ByteArray`, what a twin accepts Layout's own function accepts with the
+      same result (simulation), hence
+    - Layout's own functions invert the writers.
 -/
 import ZapModel.Types
 import ZapModel.Codec
@@ -306,5 +311,19 @@ def decodeStoredDocL (bs : Bytes) (off : Nat) : Option StoredDoc :=
           match storedGroups raw (groups.length + 1) groups with
           | none => none
           | some vals => some { id := dat.take idLen, vals := vals }
+
+/-- Where the record at `off` keeps its snappy block: (start, end) file offsets (the same
+    reads as `decodeStoredDocL`). -/
+def storedBlockL (bs : Bytes) (off : Nat) : Option (Nat × Nat) :=
+  match uv64 (bs.drop off) with
+  | none => none
+  | some (ml, r1) =>
+    match uv64 r1 with
+    | none => none
+    | some (dl, r2) =>
+      match uvAllL (ml + 1) (r2.take ml) with
+      | some (idLen :: _) =>
+        some (bs.length - r2.length + ml + idLen, bs.length - r2.length + ml + dl)
+      | _ => none
 
 end Zap.Writer
